@@ -121,6 +121,8 @@ def _tableau_interp(repo, ci, mname, args, cells):
 
 def run(ctx):
     repo = ctx.repo
+    _no_memoised_hash_on_mutable(ctx, repo)
+    _from_op_list_unitary_guard(ctx, repo)
     ctx.decided += [
         'C13.a tableau update rules == Pauli conjugation tables of the textbook gates, for every exponent class, over the complete input domain',
         'C13.b rowsum phase function g == Pauli product phase; row decoder == Aaronson-Gottesman encoding',
@@ -718,3 +720,53 @@ def _independent_draws(ctx, repo):
                        'two X-basis qubits is always even', m.rel, st.lineno)
     if n == 0:
         raise AnalysisError('C13.i: no random draw stored into an array element found')
+
+
+# ---------------------------------------------------------------------------------------------------------------------
+def _no_memoised_hash_on_mutable(ctx, repo):
+    """C13.j - a class that is updated in place cannot remember its hash: containers and caches keyed by it go stale."""
+    from . import simrules
+    ctx.decided.append('C13.j no class with in-place mutators memoises __hash__ (a cache keyed by a live tableau would return the gate of an earlier state)')
+    ctx.rule('C13.j', 'no memoised hash on a mutable value: a class whose methods store into elements of its own fields (item stores, augmented stores, out=) does not cache __hash__ '
+             '(cached_method / functools.cache / a stored _hash), unless every mutator invalidates it - functools.cache-d conversions keyed by such an object (from_clifford_tableau) '
+             'return the result computed for an earlier content', floor=3, style='COH')
+    n = 0
+    for ci in sorted(repo.classes.values(), key=lambda c: c.qual):
+        if '.testing.' in ci.qual or '.contrib.' in ci.qual:
+            continue
+        h = ci.methods.get('__hash__')
+        if h is None:
+            continue
+        decs = [ast.unparse(d) for d in h.decorator_list]
+        memo = any('cache' in d for d in decs) or any(isinstance(a, ast.Attribute) and a.attr.startswith('_hash') and isinstance(a.ctx, ast.Store) for a in ast.walk(h))
+        if not memo:
+            continue
+        mut = simrules.mutated_fields(repo, ci)
+        n += 1
+        ok = not mut
+        ctx.ob('C13.j', f'{ci.qual}.__hash__:memoised-on-mutable', ok, '' if ok else
+               f'__hash__ is memoised ({decs or "stored"}) although {sorted(set(mut.values()))[:3]} change {sorted(mut)[:4]} in place: the hash (and every cache keyed by the object) keeps '
+               'describing the content the object had when it was first hashed', ci.mod.rel, h.lineno)
+    if n == 0:
+        raise AnalysisError('C13.j: no memoised __hash__ found')
+
+
+def _from_op_list_unitary_guard(ctx, repo):
+    """C13.k - a Clifford *gate* built from operations: every accepted operation is a unitary with stabilizer effect."""
+    ctx.decided.append('C13.k CliffordGate.from_op_list accepts an operation only if it has a stabilizer effect and a unitary (measurement and reset have the first, not the second)')
+    ctx.rule('C13.k', 'gates from unitaries only: the acceptance test of CommonCliffordGates.from_op_list (the condition under which the loop continues instead of raising) is a conjunction '
+             'that includes has_stabilizer_effect(...) and has_unitary(...) of the operation / its gate', floor=1, style='RG')
+    ci = repo.cls('cirq.ops.clifford_gate.CommonCliffordGates')
+    fn = ci.methods.get('from_op_list')
+    if fn is None:
+        raise AnalysisError('CommonCliffordGates.from_op_list vanished')
+    tests = [i for i in ast.walk(fn) if isinstance(i, ast.If) and any(isinstance(s, ast.Continue) for s in i.body)]
+    if not tests:
+        raise AnalysisError('from_op_list: acceptance test (if ...: continue) not found')
+    t = tests[0].test
+    names = {(call_name(c) or '').split('.')[-1] for c in ast.walk(t) if isinstance(c, ast.Call)}
+    conj = isinstance(t, ast.BoolOp) and isinstance(t.op, ast.And)
+    ok = conj and {'has_stabilizer_effect', 'has_unitary'} <= names
+    ctx.ob('C13.k', f'{ci.qual}.from_op_list:accepts', ok, '' if ok else
+           f'operations are accepted under `{ast.unparse(t)[:90]}`: a measurement or reset passes (it has a stabilizer effect) and is applied to the scratch tableau with a fixed random '
+           'outcome, so the returned "gate" is not the operation sequence', ci.mod.rel, tests[0].lineno)
